@@ -2,6 +2,7 @@ import AffVerif.Proofs.CacheReduce
 import AffVerif.Props.C04
 import AffVerif.Props.C03
 import AffVerif.Proofs.MirrorSound
+import AffVerif.Proofs.CachePlant
 /-!
 # C05 — cached feasibility data stays sound under every operation history
 
@@ -91,6 +92,13 @@ theorem C05_reduce (tol : α) (n m : Nat) (t : PT α) (h : CacheOK tol n m t) : 
   ⟨C04_reduce t 2 n m h.1, PT.infSound_reduceAux true t [] h.2.1 h.2.2.2, PT.witSound_reduceAux tol true t [] h.2.2.1,
     (PT.infOnly_reduceAux true t h.2.2.2).1⟩
 
+/-- the user appends points to the public witness cache of node `idx`: the invariant survives when the points satisfy
+    the path conditions of that node within `tol` -/
+theorem C05_plant (tol : α) (n m : Nat) (t : PT α) (idx : Nat) (pts : List (List α)) (h : CacheOK tol n m t)
+    (hp : ∀ q ∈ PT.hitPaths t idx [], ∀ w ∈ pts, InPathTol tol q w) : CacheOK tol n m (PT.plant t idx pts) :=
+  ⟨PT.shaped_plant pts 2 n m t idx h.1, PT.infSound_plant pts [] t idx h.2.1,
+    PT.witSound_plant tol pts [] t idx h.2.2.1 hp, PT.infOnly_plant pts t idx h.2.2.2⟩
+
 /-- one step of a history; the oracles of `elim` satisfy the two contracts, those of the pruned steps are arbitrary -/
 inductive CStep (tol : α) (n : Nat) : Nat → PT α → Nat → PT α → Prop where
   | applyFunc (m : Nat) (t : PT α) (a : Aff α) (ha : a.WF) (hm : a.indim = m) :
@@ -107,6 +115,8 @@ inductive CStep (tol : α) (n : Nat) : Nat → PT α → Nat → PT α → Prop 
   | elim {σ : Type} (m : Nat) (t : PT α) (O : Oracles σ α) (s : σ) (hlp : InfeasibleSound O.lp)
       (hmi : MirrorSound tol O.mirror) : CStep tol n m t m (infeasibleElimination tol O n t s).1
   | reduce (m : Nat) (t : PT α) : CStep tol n m t m (PT.reduce t)
+  | plant (m : Nat) (t : PT α) (idx : Nat) (pts : List (List α))
+      (hp : ∀ q ∈ PT.hitPaths t idx [], ∀ w ∈ pts, InPathTol tol q w) : CStep tol n m t m (PT.plant t idx pts)
 
 theorem C05_step (tol : α) (n m m' : Nat) (t t' : PT α) (h : CacheOK tol n m t) (st : CStep tol n m t m' t') :
     CacheOK tol n m' t' := by
@@ -118,6 +128,7 @@ theorem C05_step (tol : α) (n m m' : Nat) (t t' : PT α) (h : CacheOK tol n m t
   | arith _ _ g op ex s c hg => exact C05_arith tol op ex n m t g s c h hg
   | elim _ _ O s hlp hmi => exact C05_elim tol O hlp hmi n m t s h
   | reduce => exact C05_reduce tol n m t h
+  | plant _ _ idx pts hp => exact C05_plant tol n m t idx pts h hp
 
 inductive CSteps (tol : α) (n : Nat) : Nat → PT α → Nat → PT α → Prop where
   | nil (m : Nat) (t : PT α) : CSteps tol n m t m t
@@ -193,6 +204,14 @@ example : CacheOK (1/100 : Rat) 1 1 exCache := by
 
     decide +kernel
   · simp [exCache, PT.InfOnly, PKids.InfOnly, PKids.noInf, IKids.empty, IKids.count, ITree.val]
+
+/-- non-vacuity of `C05_plant`: the point 2 satisfies the path of node 1 (`x ≥ 0`), and planting it extends the list -/
+example : ∀ q ∈ PT.hitPaths exCache 1 [], ∀ w ∈ [[(2 : Rat)]], InPathTol (1/100) q w := by
+  simp [exCache, PT.hitPaths, PKids.hitPaths, InPathTol, halfspace]
+  decide +kernel
+example : (PT.plant exCache 1 [[2]]).find? 1 =
+    some (.node 1 ⟨⟨[[2]], [1], 1⟩, .witness [[1], [2]]⟩ (IKids.empty 2)) := by
+  simp [exCache, PT.plant, ITree.modifyAt, IKids.modifyAt, PT.plantFn, NState.plant, ITree.find?, IKids.find?]
 
 mutual
 theorem PT.fresh_removeAxes (keep : List Nat) (t : PT α) : PT.Fresh (Sch.removeAxes keep t) := by
